@@ -231,3 +231,31 @@ Proof.
   intros H q w Hin. apply (rr_no_registration_lost tr s H).
   apply (rr_used_is_queued tr s H). exists q, w. auto.
 Qed.
+
+(** * No label twice *)
+
+Lemma rstep_raw_used_fresh s e s' : rstep_raw s e = Some s' ->
+  h_used (rgh s') = h_used (rgh s) \/ exists l, h_used (rgh s') = l :: h_used (rgh s) /\ ~ In l (h_used (rgh s)).
+Proof.
+  intros H. unfold rstep_raw, router_pass in H.
+  crush_matches H; injection H as <-; rsimp;
+    first [ solve [left; reflexivity]
+          | right; eexists; split; [reflexivity|];
+            match goal with Hm : (_ || memb _ _)%bool = false |- _ =>
+              apply Bool.orb_false_iff in Hm; destruct Hm as [_ Hm]; intros Hin; apply memb_In in Hin; congruence end ].
+Qed.
+
+Theorem rr_used_nodup tr s : rrun rinit tr = Some s -> NoDup (h_used (rgh s)).
+Proof.
+  intros H. revert H. apply (lift_run (fun s => NoDup (h_used (rgh s)))).
+  - intros a b Ha Hi. now rewrite (rinternal_used _ _ Hi).
+  - intros a e b Ha Hr. destruct (rstep_raw_used_fresh _ _ _ Hr) as [->|(l & -> & Hn)]; [exact Ha|now constructor].
+  - constructor.
+Qed.
+
+(** nobody is given two roles, or one role twice: the labels waiting, bound, refused and keyed
+    are pairwise distinct *)
+Theorem rr_roles_nodup tr s : rrun rinit tr = Some s -> NoDup (places s).
+Proof.
+  intros H. apply (Permutation_NoDup (rr_registrations_placed_exactly_once tr s H)). now apply rr_used_nodup with tr.
+Qed.
